@@ -51,6 +51,21 @@ namespace metrics
 
 namespace metrics = opentelemetry::metrics;
 
+namespace
+{
+// Identity of a metric stream in Meter::storage_registry_: the instrument that feeds it and the
+// registered view that shapes it (views are owned by the ViewRegistry for the lifetime of the
+// context, so the address identifies the view). Every handle obtained for the same instrument
+// records into the same stream and every matching view keeps a stream of its own.
+std::string StorageKey(const InstrumentDescriptor &instrument_descriptor, const View &view)
+{
+  return instrument_descriptor.name_ + '\n' + instrument_descriptor.unit_ + '\n' +
+         std::to_string(static_cast<int>(instrument_descriptor.type_)) + '\n' +
+         std::to_string(static_cast<int>(instrument_descriptor.value_type_)) + '\n' +
+         std::to_string(reinterpret_cast<uintptr_t>(&view));
+}
+}  // namespace
+
 metrics::NoopMeter Meter::kNoopMeter = metrics::NoopMeter();
 
 Meter::Meter(
@@ -488,6 +503,15 @@ std::unique_ptr<SyncWritableMetricStorage> Meter::RegisterSyncMetricStorage(
         }
         auto multi_storage = static_cast<SyncMultiMetricStorage *>(storages.get());
 
+        auto storage_key = StorageKey(instrument_descriptor, view);
+        auto registered  = storage_registry_.find(storage_key);
+        if (registered != storage_registry_.end())
+        {
+          // the key contains the instrument type, so this is a SyncMetricStorage
+          multi_storage->AddStorage(std::static_pointer_cast<SyncMetricStorage>(registered->second));
+          return true;
+        }
+
         auto storage = std::shared_ptr<SyncMetricStorage>(new SyncMetricStorage(
             view_instr_desc, view.GetAggregationType(), &view.GetAttributesProcessor(),
 #ifdef ENABLE_METRICS_EXEMPLAR_PREVIEW
@@ -496,7 +520,7 @@ std::unique_ptr<SyncWritableMetricStorage> Meter::RegisterSyncMetricStorage(
                                  instrument_descriptor),
 #endif
             view.GetAggregationConfig()));
-        storage_registry_[instrument_descriptor.name_] = storage;
+        storage_registry_[storage_key] = storage;
         multi_storage->AddStorage(storage);
         return true;
       });
@@ -546,6 +570,16 @@ std::unique_ptr<AsyncWritableMetricStorage> Meter::RegisterAsyncMetricStorage(
         {
           view_instr_desc.description_ = view.GetDescription();
         }
+        auto storage_key = StorageKey(instrument_descriptor, view);
+        auto registered  = storage_registry_.find(storage_key);
+        if (registered != storage_registry_.end())
+        {
+          // the key contains the instrument type, so this is an AsyncMetricStorage
+          static_cast<AsyncMultiMetricStorage *>(storages.get())
+              ->AddStorage(std::static_pointer_cast<AsyncMetricStorage>(registered->second));
+          return true;
+        }
+
         auto storage = std::shared_ptr<AsyncMetricStorage>(new AsyncMetricStorage(
             view_instr_desc, view.GetAggregationType(),
 #ifdef ENABLE_METRICS_EXEMPLAR_PREVIEW
@@ -554,7 +588,7 @@ std::unique_ptr<AsyncWritableMetricStorage> Meter::RegisterAsyncMetricStorage(
                                  instrument_descriptor),
 #endif
             view.GetAggregationConfig()));
-        storage_registry_[instrument_descriptor.name_] = storage;
+        storage_registry_[storage_key] = storage;
         static_cast<AsyncMultiMetricStorage *>(storages.get())->AddStorage(storage);
         return true;
       });
